@@ -1,6 +1,7 @@
 import WhVerif.Model.C13
 import WhVerif.Spec.C13
 import WhVerif.Lemmas.C13
+import WhVerif.Lemmas.C13Compose
 /-!
 # C13 — unphase accepts every VCF, removes all phase information and nothing else
 
@@ -169,5 +170,123 @@ example : PhaseOnlyEdit [⟨["chr1"], [⟨some ⟨[some 0, some 1], false⟩, [(
   exact List.Perm.swap _ _ _
 example : ∀ r ∈ [(⟨["chr1"], [⟨some ⟨[some 1, some 0], true⟩, [("PS", "7")]⟩, ⟨some ⟨[none], false⟩, []⟩]⟩ : Record)],
     ∀ c ∈ r.calls, curSafe c = true := by decide
+
+/-! ### unphase after `whatshap phase`: composition with the C04 model (`Model/C13Bridge.lean`) -/
+
+open WhVerif in
+/-- **phase_is_phase_only_edit**.  What `PhasedVcfWriter.write` (C04's `writeChrom`) does to the records of a
+chromosome block, seen as records of this model (`ofC04`), is a phase-only edit — provided it reports no genotype
+change (which is the case unless genotypes are distrusted, `Props.C04.alleles_preserved_from_table`) and sample
+names are distinct.  This discharges the hypothesis of `unphase_phase_eq_unphase` from the writer's model instead of
+assuming it. -/
+theorem phase_is_phase_only_edit (cfg : C04.Cfg) (prev : Option Nat) (rs : List C04.Record)
+    (hnd : ∀ r ∈ rs, (r.calls.map (·.1)).Nodup) (hno : ∀ o ∈ C04.writeChrom cfg prev rs, o.changes = []) :
+    PhaseOnlyEdit (rs.map ofC04) ((C04.writeChrom cfg prev rs).map (fun o => ofC04 o.record)) :=
+  writeChrom_edit cfg rs prev hnd hno
+
+open WhVerif in
+/-- **unphase_after_whatshap_phase**.  For the whole file as `whatshap phase` writes it (`C04.fileOut`: any number of
+chromosome blocks, any `--sample`/`--chromosome` selection, either tag, pre-existing phase information, records of
+every kind): if no genotype change is reported, unphasing the output gives exactly the records that unphasing the
+input gives. -/
+theorem unphase_after_whatshap_phase (fc : C04.FileCfg) (ph : C04.Phasing) (recs : List C04.FRec)
+    (hnd : ∀ fr ∈ recs, (fr.record.calls.map (·.1)).Nodup)
+    (hno : ∀ b ∈ C04.expectedBlocks fc ph 0 (C04.groupChrom recs), ∀ o ∈ b, o.changes = []) :
+    unphase ((C04.fileOut fc ph recs).map (fun o => ofC04 o.record)) = unphase (recs.map (fun fr => ofC04 fr.record)) := by
+  have h := expectedBlocks_edit fc ph (C04.groupChrom recs) 0
+    (by
+      intro cg hcg fr hfr
+      apply hnd
+      rw [← C04.groupChrom_flatten recs]
+      exact List.mem_flatMap.mpr ⟨cg, hcg, hfr⟩)
+    hno
+  rw [C04.groupChrom_flatten] at h
+  exact unphase_phase_eq_unphase h
+
+/-! ### header (`unphase_header`) -/
+
+open WhVerif in
+/-- **header_only_phase_lines_removed**.  `unphase_header` leaves no FORMAT definition of HP, PQ or PS; every other
+line that is not a `phasing` line is kept; nothing is added (the result is a sublist of the input header, so the
+order of the lines is kept as well); and at most one `phasing` line is removed. -/
+theorem header_only_phase_lines_removed (h : List C04.HLine) :
+    (∀ l ∈ unphaseHeader h, isPhaseFormat l = false) ∧
+    (∀ l ∈ h, l.key ≠ "phasing" → isPhaseFormat l = false → l ∈ unphaseHeader h) ∧
+    (unphaseHeader h).Sublist h ∧
+    (removePhaseFormats h).length ≤ (unphaseHeader h).length + 1 := by
+  refine ⟨fun l hl => (mem_removePhaseFormats.mp hl).2, ?_, ?_, ?_⟩
+  · intro l hl hk hp
+    exact mem_removePhaseFormats.mpr ⟨C04.mem_removeFirstPhasing hl hk, hp⟩
+  · have hs : (C04.removeFirstPhasing h).Sublist h := by
+      induction h with
+      | nil => exact List.Sublist.slnil
+      | cons a r ih =>
+        unfold C04.removeFirstPhasing
+        split
+        · exact List.sublist_cons_self a r
+        · exact ih.cons_cons a
+    exact (List.filter_sublist).trans hs
+  · unfold unphaseHeader
+    rw [← removeFirstPhasing_filter_comm]
+    exact C04.removeFirstPhasing_length _
+
+open WhVerif in
+/-- **header_idempotent** as far as it holds for the code as it is: on a header with at most one `phasing` line a
+second application changes nothing. -/
+theorem header_idempotent_of_single_phasing (h : List C04.HLine)
+    (hone : ∀ l ∈ C04.removeFirstPhasing h, l.key ≠ "phasing") :
+    unphaseHeader (unphaseHeader h) = unphaseHeader h := by
+  unfold unphaseHeader
+  rw [removeFirstPhasing_filter_comm (C04.removeFirstPhasing h), removeFirstPhasing_of_none hone,
+    removePhaseFormats_idem]
+
+open WhVerif in
+/-- **f61_second_phasing_line** (defect F61, witness on the faithful model): with two `##phasing=` lines the first
+application leaves one behind and the second application removes it — applying `unphase` twice does not equal
+applying it once. -/
+theorem f61_second_phasing_line :
+    let h : List C04.HLine := [⟨"fileformat", none, "", "", "VCFv4.2"⟩, ⟨"phasing", none, "", "", "none"⟩,
+      ⟨"phasing", none, "", "", "partial"⟩, ⟨"FORMAT", some "PS", "1", "Integer", ""⟩]
+    unphaseHeader h = [⟨"fileformat", none, "", "", "VCFv4.2"⟩, ⟨"phasing", none, "", "", "partial"⟩] ∧
+    unphaseHeader (unphaseHeader h) = [⟨"fileformat", none, "", "", "VCFv4.2"⟩] := by
+  constructor <;> decide
+
+open WhVerif in
+/-- **header_fix_idempotent**: after `fixes/F61.patch` (every `phasing` line removed) the header edit is idempotent on
+every header, leaves no `phasing` line and no FORMAT definition of a phase tag, and keeps every other line. -/
+theorem header_fix_idempotent (h : List C04.HLine) :
+    unphaseHeaderFix (unphaseHeaderFix h) = unphaseHeaderFix h ∧
+    (∀ l ∈ unphaseHeaderFix h, l.key ≠ "phasing" ∧ isPhaseFormat l = false) ∧
+    (∀ l ∈ h, l.key ≠ "phasing" → isPhaseFormat l = false → l ∈ unphaseHeaderFix h) := by
+  refine ⟨?_, ?_, ?_⟩
+  · simp only [unphaseHeaderFix, removePhaseFormats, List.filter_filter]
+    congr 1
+    funext l
+    cases isPhaseFormat l <;> cases decide (l.key = "phasing") <;> rfl
+  · intro l hl
+    simp only [unphaseHeaderFix, removePhaseFormats, List.mem_filter] at hl
+    exact ⟨by simpa using hl.1.2, by simpa using hl.2⟩
+  · intro l hl hk hp
+    simp only [unphaseHeaderFix, removePhaseFormats, List.mem_filter]
+    exact ⟨⟨hl, by simpa using hk⟩, by simpa using hp⟩
+
+/-! non-vacuity of the composition: a block through the C04 writer satisfies the hypotheses, and this is what it
+    looks like in this model -/
+open WhVerif in
+def exC04Cfg : C04.Cfg := ⟨.PS, false, false, true, ["A", "B"], [⟨"A", [(10, 0)], [(10, 1)], [(10, 10)]⟩]⟩
+open WhVerif in
+def exC04Rec : C04.Record := ⟨"chr1\t11\t.\tA\tC\t.\tPASS\t.", 10, "A", ["C"], ["GT", "DP"],
+  [("A", ⟨some [some 1, some 0], false, [("DP", .raw "7")]⟩), ("B", ⟨some [some 1, some 0], true, [("DP", .raw "9")]⟩)]⟩
+open WhVerif in
+example : (∀ r ∈ [exC04Rec], (r.calls.map (·.1)).Nodup) ∧ (∀ o ∈ C04.writeChrom exC04Cfg none [exC04Rec], o.changes = []) := by
+  constructor <;> decide
+open WhVerif in
+example : (C04.writeChrom exC04Cfg none [exC04Rec]).map (fun o => (ofC04 o.record).calls) =
+    [[⟨some ⟨[some 0, some 1], true⟩, [("DP", "7"), ("PS", "11")]⟩, ⟨some ⟨[some 1, some 0], true⟩, [("DP", "9"), ("PS", ".")]⟩]] ∧
+    (ofC04 exC04Rec).calls = [⟨some ⟨[some 1, some 0], false⟩, [("DP", "7")]⟩, ⟨some ⟨[some 1, some 0], true⟩, [("DP", "9")]⟩] := by
+  constructor <;> decide
+open WhVerif in
+example : ∀ l ∈ C04.removeFirstPhasing [⟨"phasing", none, "", "", "none"⟩, ⟨"FORMAT", some "PS", "1", "Integer", ""⟩],
+    l.key ≠ "phasing" := by decide
 
 end WhVerif.Props.C13
